@@ -175,6 +175,29 @@ class Recorder:
         if self.alt is not None:
             self.alt_reset = jax.jit(self.alt.reset)
             self.alt_step = jax.jit(self.alt.step)
+        # C01, second sentence: the value produced by action_spec.generate_value() is a member of the action spec
+        # and is accepted by step (recorded once per configuration, judged by C01Group on the first event line)
+        try:
+            gen = self.env.action_spec.generate_value()
+            ga = {"lv": jsonify.leaf_summaries(gen)[0], "validate_ok": True, "accepted": True, "error": "none"}
+            ga_arr = np.asarray(gen).reshape(-1)
+            ga["lv"]["data"] = ([jsonify.ford(v) for v in ga_arr] if np.issubdtype(ga_arr.dtype, np.floating)
+                                else [int(v) for v in ga_arr])
+            try:
+                self.env.action_spec.validate(gen)
+            except Exception:  # noqa: BLE001
+                ga["validate_ok"] = False
+            try:
+                st0, _ = self.jreset(jax.random.PRNGKey(seed + 77))
+                st1, ts1 = self.jstep(st0, gen)
+                ga["accepted"] = bool(int(np.asarray(ts1.step_type)) in (1, 2))
+            except Exception as e:  # noqa: BLE001
+                ga["accepted"] = False
+                ga["error"] = type(e).__name__
+        except Exception as e:  # noqa: BLE001
+            ga = {"lv": {"path": "", "dtype": "none", "shape": [], "empty": True, "lo": 0, "hi": 0, "nan": False},
+                  "validate_ok": False, "accepted": False, "error": type(e).__name__}
+        self.decl["generated_action"] = ga
         self.lines = []
         self.n_events = 0
         self.n_probe = 0
